@@ -53,3 +53,41 @@ package regclient
 //@   ensures present-moves-nothing: $headDone && $headOK ==> $gets == 0 && $puts == 0 && !$mountDone
 //@   ensures granted-mount-moves-nothing: $mountDone && $mountOK ==> $gets == 0 && $puts == 0
 //@   ensures mount-attempted-when-possible: $gets > 0 && ref.EqualRegistry(refSrc, refTgt) ==> $mountDone
+
+// ---- C04/C03: the manifest is pushed only after every child task reported success ----
+// Counting discipline of imageCopyOpt. Ghost state: $spawned = go statements executed,
+// $received = values received from waitCh, $allNil = every value received so far was nil.
+// Channel rule (proof rule, not an assumption about this code): on an unbuffered channel n sends
+// are matched by n receives; if the function has received as many values as it spawned tasks and
+// all were nil, every child task sent nil. Side condition (checked separately): each spawned
+// goroutine sends exactly once, after its child call returned.
+//@ ghost $spawned int
+//@ ghost $received int
+//@ ghost $allNil bool
+//@ func (*RegClient).imageCopyOpt(ctx, refSrc, refTgt, d, child, parents, opt) (err)
+//@   prop C04
+//@   entry-assume $spawned == 0 && $received == 0 && $allNil
+//@   on-go $spawned = $spawned + 1
+//@   on-recv waitCh: $received = $received + 1
+//@   on-recv waitCh: $allNil = $allNil && v == nil
+//@   loop 0 (dEntry)
+//@     invariant counter: waitCount >= 0 && waitCount == $spawned - $received && $received == 0 && $allNil
+//@   loop 1 (layerSrc)
+//@     invariant counter: waitCount >= 0 && waitCount == $spawned - $received && $received == 0 && $allNil
+//@   loop 2 ()
+//@     invariant counter: waitCount >= 0 && waitCount == $spawned - $received && (err == nil ==> $allNil)
+//@   loop 3 (rConf)
+//@     invariant counter: waitCount >= 0 && waitCount == $spawned - $received && $allNil
+//@   loop 4 (rDesc)
+//@     invariant counter: waitCount >= 0 && waitCount == $spawned - $received && $allNil
+//@   loop 5 (tag)
+//@     invariant counter: waitCount >= 0 && waitCount == $spawned - $received && $allNil
+//@   loop 6 ()
+//@     invariant counter: waitCount >= 0 && waitCount == $spawned - $received && (err == nil ==> $allNil)
+//@ callsite (*RegClient).ManifestPut(ctx, r, m, opts)
+//@   prop C04
+//@   name ManifestPut/imageCopyOpt
+//@   in ~
+//@   infunc \)\.imageCopyOpt$
+//@   requires children-done: $spawned == $received && $allNil
+//@   requires writes-target: r == caller.refTgt
